@@ -320,6 +320,8 @@ def rnd_allows(j, v, i, path):
     p = Fraction(*j["p"])
     if k in ("RangeI", "RangeF") and p < 1 and j["none"] is not None and same(v, plain(j["none"], i, path)):
         return True
+    if p == 0:
+        return False        # probability 0.0: never generated (D60)
     if k == "RangeI":
         return type(v) is int and j["lo"] <= v <= j["hi"]
     if k == "RangeF":
@@ -373,6 +375,8 @@ def allowed_counts(j):
     out = set()
     if p < 1:
         out.add(cnt(py_value(j["none"])) if k in ("RangeI", "RangeF") else 0)
+    if p == 0:
+        return out          # probability 0.0: never generated (D60)
     if k == "RangeI":
         out.update(max(x, 0) for x in range(j["lo"], j["hi"] + 1))
     elif k == "Value":
@@ -770,6 +774,10 @@ def gen_stream(rng):
 
 
 CORPUS = [
+    # D60: probability 0.0 and random() == 0.0
+    dict(typed=False, name=None, types=None,
+         relations=[["__root__", [["a", [[":count", 2], ["never", {"R": "Value", "v": "x", "p": [0, 1]}], ["t", "n{idx}"]]]]]],
+         stream=[[0, 1, ""], [4, 2, ""]]),
     # D39: self-loop with the default count 1 (domain restriction, recorded)
     dict(typed=False, name=None, types=None, relations=[["__root__", [["a", []]]], ["a", [["a", []]]]], stream=[]),
     # the suite's own definition (tests/test_tree_generator.py::test_simple)
